@@ -419,4 +419,8 @@ def run(ctx: Ctx, repo: Repo, tier: str) -> None:
     # call (a parameterless function that always raised is a traced function all the same) - R-C17.2
     from . import c17 as _c17
     ctx.attempt(_c17.rule_main_gate, ctx, repo)
+    # "the same names, kinds, order and presence of defaults as the real function ... `async` when it is a coroutine function":
+    # the stored trace decodes back to the function whose frame ran, not to a wrapper that advertises another signature (R-C08.3)
+    from . import c08 as _c08
+    ctx.attempt(_c08.rule_trace_round_trip, ctx, repo)
     ctx.settle()
